@@ -59,7 +59,7 @@ func isUnauthorized(tx *TxResult) bool {
 	case "avsreg", "avsdereg", "avstask":
 		return tx.Op.M == 1 // the sender argument is not a listed owner
 	case "avsupd":
-		return tx.Op.M == 3
+		return tx.Op.M == 3 || tx.Op.M == 4
 	case "avsres":
 		return tx.Op.E == 5 // signed by another account than the operator it is attributed to
 	}
